@@ -63,5 +63,7 @@ def run(ctx, model_ok, deep=False):
          "C01 mutation set under GnuTLS against the same independent oracle as OpenSSL", False),
         ("verify-sig-openssl", lambda w, p, t, r: S.verify_sig(w, p, t, r, "openssl"), S.falsify_accept,
          "C01 mutation set under OpenSSL", False),
+        ("key-lifecycle", S.key_lifecycle_suite, S.falsify_accept,
+         "per key type and provider: one keyring slot loaded, used, freed and re-loaded 6 (quick) / 12 (thorough) times with two keys of the same type and size in turn (freed blocks handed out again at once); after every re-load both providers must reject the retired key's token and accept the current key's", False),
     ])
     env_suite(ctx, model_ok)
